@@ -39,6 +39,11 @@ class ContinueSig(Exception):
 
 HOST_ABORT = (GeneratorExit, PathEnd, EngineError)
 
+# decorators dropped by the extraction (DESIGN 2.1): @plan wraps the generator in a Plan object whose
+# __iter__/send/throw/close delegate to it (A-PLAN); the others only add logging / tracing / metadata
+TRANSPARENT_DECORATORS = {"plan", "wraps", "functools.wraps", "tracer.start_as_current_span", "_state_locked",
+                          "staticmethod", "classmethod"}
+
 
 # ----------------------------------------------------------------------------- scopes
 def _collect_locals(node):
@@ -142,6 +147,7 @@ class Frame:
         self.locals_set = locals_set
         self.vars = {}
         self.cur_exc = None
+        self.ctx = []              # dynamic context: active except-handlers / finally-blocks (part of cut keys)
         self.loc = None            # control location (last yield) for cut keys
         self.module = closure.module if closure else None
         self.cls = closure.cls if closure else None
@@ -323,6 +329,10 @@ class Interp:
             raise PyRaise(self.mkexc("NameError", f"name '{name}' is not defined"))
         kind = d[0]
         if kind == "func":
+            for dec in d[1].decorator_list:
+                src = ast.unparse(dec)
+                if not (src in TRANSPARENT_DECORATORS or src.split("(")[0] in TRANSPARENT_DECORATORS):
+                    raise EngineError(f"module-level decorator @{src} on {modinfo.name}:{name} is not in the transparent list")
             v = self.make_closure(d[1], modinfo, None, None, f"{modinfo.name}:{d[1].name}")
         elif kind == "class":
             v = self.P.class_info(modinfo.name, name)
@@ -1067,6 +1077,7 @@ class Interp:
 
     def ex_Try(self, st, fr):
         host_exit = False
+        pending = None
         try:
             try:
                 yield from self.ex_block(st.body, fr)
@@ -1079,9 +1090,11 @@ class Interp:
                         fr.cur_exc = pr.exc
                         if h.name:
                             self.store_name(h.name, pr.exc, fr)
+                        fr.ctx.append(("handler", h.lineno, pr.exc))
                         try:
                             yield from self.ex_block(h.body, fr)
                         finally:
+                            fr.ctx.pop()
                             fr.cur_exc = saved
                             if h.name:
                                 f = fr.lookup_frame(h.name)
@@ -1095,9 +1108,24 @@ class Interp:
         except HOST_ABORT:
             host_exit = True
             raise
+        except BaseException as sig:       # PyRaise / RetSig / BreakSig / ContinueSig travelling through
+            pending = sig
+            raise
         finally:
             if st.finalbody and not host_exit:
-                yield from self.ex_block(st.finalbody, fr)
+                if isinstance(pending, PyRaise):
+                    c = ("finally-exc", st.lineno, pending.exc)
+                elif isinstance(pending, RetSig):
+                    c = ("finally-ret", st.lineno, pending.v)
+                elif pending is not None:
+                    c = ("finally-" + type(pending).__name__, st.lineno, None)
+                else:
+                    c = ("finally", st.lineno, None)
+                fr.ctx.append(c)
+                try:
+                    yield from self.ex_block(st.finalbody, fr)
+                finally:
+                    fr.ctx.pop()
 
     def ex_With(self, st, fr):
         yield from self._with(st, fr, 0, False)
